@@ -95,12 +95,13 @@ class Multiplication:
 
   def __divide_segment_and_connection_counts(self, segment, factor):
     self.__divide_counts(segment, factor)
-    processed_circulars = set()
+    processed_circulars = []
     for l in segment.dovetails + segment.containments:
       if l.is_circular():
-        if l not in processed_circulars:
+        # (lines without a name cannot be hashed)
+        if not any(l is p for p in processed_circulars):
           self.__divide_counts(l, factor)
-          processed_circulars.add(l)
+          processed_circulars.append(l)
       else:
         self.__divide_counts(l, factor)
 
